@@ -71,6 +71,31 @@ type c18B struct {
 	A     *c18A  `json:"a,omitempty"`
 	L     []c18A `json:"l,omitempty"`
 }
+type c18Leaf struct {
+	V int `json:"v"`
+}
+type c18Other struct {
+	W string `json:"w"`
+}
+type c18Q struct {
+	R c18Leaf  `json:"r"`
+	S c18Other `json:"s"`
+	T c18Leaf  `json:"t"`
+}
+type c18X struct {
+	Q c18Q `json:"q"`
+}
+type c18DeepA struct {
+	X c18X `json:"x"`
+}
+
+// c18Deep: struct types first met several property levels down, with siblings after them, and used again higher up
+type c18Deep struct {
+	A c18DeepA  `json:"a"`
+	Z c18Leaf   `json:"z"`
+	Y *c18Other `json:"y,omitempty"`
+	L []c18Q    `json:"l"`
+}
 type c18Twice struct {
 	X c18Inner  `json:"x"`
 	Y c18Inner  `json:"y"`
@@ -133,6 +158,10 @@ func c18FieldType(kind string) (reflect.Type, bool) {
 		return reflect.TypeOf(c18A{}), false
 	case "shared-twice":
 		return reflect.TypeOf(c18Twice{}), false
+	case "deep-shared":
+		return reflect.TypeOf(c18Deep{}), false
+	case "array-byte":
+		return reflect.TypeOf([4]byte{}), false
 	}
 	return nil, false
 }
